@@ -494,7 +494,11 @@ impl V0 {
         let client_id = self.client_id;
         spawn(async move {
             debug!("Receiving events for subscription {subscription:?} …");
+            #[cfg(feature = "verif")]
+            crate::verif::perturb("subscribe-forward-start").await;
             while let Some(event) = rx.recv().await {
+                #[cfg(feature = "verif")]
+                crate::verif::perturb("subscribe-forward-event").await;
                 let state = State {
                     transaction_id,
                     event,
@@ -789,7 +793,11 @@ impl V0 {
 
         spawn(async move {
             debug!("Receiving events for ls subscription {subscription:?} …");
+            #[cfg(feature = "verif")]
+            crate::verif::perturb("subscribe-ls-forward-start").await;
             while let Some(children) = rx.recv().await {
+                #[cfg(feature = "verif")]
+                crate::verif::perturb("subscribe-ls-forward-event").await;
                 let state = LsState {
                     transaction_id,
                     children,
@@ -849,7 +857,11 @@ async fn forward_loop(
     client_sub: mpsc::Sender<ServerMessage>,
 ) {
     debug!("Receiving events for subscription {subscription:?} …");
+    #[cfg(feature = "verif")]
+    crate::verif::perturb("psubscribe-forward-start").await;
     while let Some(event) = rx.recv().await {
+        #[cfg(feature = "verif")]
+        crate::verif::perturb("psubscribe-forward-event").await;
         let event = PState {
             transaction_id,
             request_pattern: request_pattern.clone(),
@@ -899,6 +911,8 @@ async fn aggregate_loop(
     );
 
     while let Some(event) = rx.recv().await {
+        #[cfg(feature = "verif")]
+        crate::verif::perturb("psubscribe-aggregate-event").await;
         if let Err(e) = aggregator.aggregate(event).await {
             error!("Error sending STATE message to client: {e}");
             break;
